@@ -441,3 +441,5 @@ def run(S):
     rule_cmp(S)
     rule_use(S)
     rule_slice(S)
+    from checks import keylen
+    keylen.rule_narrow(S)
